@@ -28,6 +28,13 @@ int fx_wrongcode_s(char *dest, size_t dmax) {
     if (dmax == 0) { invoke_safe_str_constraint_handler("dmax is 0", dest, ESNULLP); return ESZEROL; }
     if (dest) *dest = 0; return 0;
 }
+/* pointer result with an errno_t out-parameter: one error exit forgets to store the code */
+char *fx_errp_forgotten_s(char *dest, size_t dmax, int *errp) {
+    if (!errp) { invoke_safe_str_constraint_handler("errp is null", dest, ESNULLP); return 0; }
+    if (!dest) { invoke_safe_str_constraint_handler("dest is null", NULL, ESNULLP); *errp = ESNULLP; return 0; }
+    if (dmax == 0) { invoke_safe_str_constraint_handler("dmax is 0", dest, ESZEROL); return 0; }
+    *dest = 0; *errp = 0; return dest;
+}
 int fx_nested_quiet_s(char *dest, size_t dmax) {      /* the nested call cannot fail: its checks are implied by ours */
     if (!dest) { invoke_safe_str_constraint_handler("dest is null", NULL, ESNULLP); return ESNULLP; }
     if (dmax == 0 || dmax > 4096) { invoke_safe_str_constraint_handler("dmax bad", dest, ESLEMAX); return ESLEMAX; }
